@@ -2,6 +2,7 @@
 use crate::core::{ok, set_rule, CheckResult, Ctx};
 use crate::ensure;
 use crate::gen;
+use crate::kx;
 use kestrel_crypto as kc;
 use proptest::prelude::*;
 use serde::{Deserialize, Serialize};
@@ -11,6 +12,7 @@ pub enum Case {
     Aead { seed: u64, mlen: usize, alen: usize, tamper: bool },
     X25519 { k: u64, u: UCoord, clamp_noise: u8 },
     DhSym { a: u64, b: u64 },
+    SpecialScalar { i: usize, u: UCoord },
     Hkdf { seed: u64, salt: usize, ikm: usize, info: usize, out: usize },
     Hmac { seed: u64, klen: usize, dlen: usize },
     Sha { seed: u64, len: usize },
@@ -18,6 +20,8 @@ pub enum Case {
 }
 #[derive(Clone, Debug, Serialize, Deserialize)]
 pub enum UCoord { Random(u64), RandomHighBit(u64), LowOrder(usize), NonCanonical(u8), Base }
+/// Scalars at the extremes: all-zero, all-ones, only clamped bits set, single bits.
+pub fn special_scalar(i: usize) -> [u8; 32] { let mut k = [0u8; 32]; match i { 0 => {}, 1 => k = [0xff; 32], 2 => { k[0] = 7; k[31] = 0x80; }, 3 => k[31] = 0x40, 4 => k[0] = 8, 5 => { k = [0xff; 32]; k[0] = 0xf8; k[31] = 0x7f; }, _ => k[i % 32] = 1 << (i % 8) } k }
 
 fn ucoord(u: &UCoord) -> [u8; 32] {
     match u {
@@ -67,6 +71,18 @@ pub fn check(c: &Case) -> CheckResult {
             ensure!(prk.to_public().map(|p| p.as_bytes().to_vec()).ok() == Some(pk.clone()), "PrivateKey::to_public differs from x25519_derive_public");
             ok(true, format!("x25519/{}", match u { UCoord::Random(_) => "random", UCoord::RandomHighBit(_) => "highbit", UCoord::LowOrder(_) => "low-order", UCoord::NonCanonical(_) => "non-canonical", UCoord::Base => "base" }))
         }
+        Case::SpecialScalar { i, u } => {
+            let sk = special_scalar(*i); let uu = ucoord(u); let want = kspec::x25519(&sk, &uu);
+            match kc::x25519(&sk, &uu) { Ok(v) => ensure!(v[..] == want[..] && want != [0u8; 32], "x25519 with scalar {} differs from RFC 7748", kspec::hex(&sk)), Err(_) => ensure!(want == [0u8; 32], "x25519 with scalar {} failed although the RFC 7748 result is non-zero", kspec::hex(&sk)) }
+            let pubk = kspec::x25519_base(&sk);
+            ensure!(kc::x25519_derive_public(&sk).ok().as_deref() == Some(&pubk[..]), "x25519_derive_public({}) is not the base point multiple", kspec::hex(&sk));
+            let key = kc::PrivateKey::try_from(&sk[..]).unwrap();
+            ensure!(key.to_public().map(|p| p.as_bytes().to_vec()).ok().as_deref() == Some(&pubk[..]), "PrivateKey::to_public for scalar {} is not the base point multiple (RFC 7748 clamps any 32 bytes into a valid scalar)", kspec::hex(&sk));
+            let peer = kx::ident(*i as u64, "c19-peer");
+            let a = key.diffie_hellman(&kc::PublicKey::try_from(&peer.pk[..]).unwrap()).ok(); let b = kc::PrivateKey::try_from(&peer.sk[..]).unwrap().diffie_hellman(&kc::PublicKey::try_from(&pubk[..]).unwrap()).ok();
+            ensure!(a.is_some() && a == b, "Diffie-Hellman with scalar {} is not symmetric (a.B = {:?}, b.A = {:?})", kspec::hex(&sk), a.map(|x| kspec::hex(&x)), b.map(|x| kspec::hex(&x)));
+            ok(true, "x25519/special-scalar")
+        }
         Case::DhSym { a, b } => {
             let (a, b) = (gen::key32(*a, "dh-a"), gen::key32(*b, "dh-b"));
             let (pa, pb) = (kspec::x25519_base(&a), kspec::x25519_base(&b));
@@ -112,6 +128,7 @@ pub fn run(ctx: &Ctx) {
     ctx.sse("hmac_key_lengths", "key length 0..=200 x data length {0,1,63,64,65,500}", 201 * 6, |i| Case::Hmac { seed: ctx.seed ^ i as u64, klen: i / 6, dlen: [0, 1, 63, 64, 65, 500][i % 6] }, check);
     let nlow = gen::low_order_points().len();
     ctx.sse("x25519_special_points", "14 small-order spellings + 19 non-canonical + base x 8 clamp-noise patterns", (nlow + 20) * 8, |i| { let j = i / 8; Case::X25519 { k: ctx.seed.wrapping_add(i as u64), u: if j < nlow { UCoord::LowOrder(j) } else if j < nlow + 19 { UCoord::NonCanonical((j - nlow) as u8) } else { UCoord::Base }, clamp_noise: (i % 8) as u8 } }, check);
+    ctx.sse("x25519_special_scalars", "40 extreme scalars (all-zero, all-ones, only clamped bits, single bits) x {base, random, high-bit u}: raw functions and key objects", 40 * 3, |i| Case::SpecialScalar { i: i / 3, u: match i % 3 { 0 => UCoord::Base, 1 => UCoord::Random(i as u64), _ => UCoord::RandomHighBit(i as u64) } }, check);
     ctx.pbt("pbt_primitives", ctx.n(400_000, 4_000_000), || prop_oneof![
         3 => (any::<u64>(), prop_oneof![4 => 0usize..400, 1 => 0usize..70_000], 0usize..80).prop_map(|(seed, mlen, alen)| Case::Aead { seed, mlen, alen, tamper: false }),
         1 => (any::<u64>(), 0usize..40, 0usize..24).prop_map(|(seed, mlen, alen)| Case::Aead { seed, mlen, alen, tamper: true }),
